@@ -187,6 +187,8 @@ def check_rename(oracle, ws, entries, new_lower='zz', new_upper='Zz', only=None)
         if 'apply_err' in r:
             problems.append('%s: %s (edits %s)' % (where, r['apply_err'], sorted(eds))); continue
         refs = set(tuple(x) for x in (e['refs'] or []))
+        if (e['file'], e['start'], e['end']) not in set((f, s, en) for f, s, en, _ in eds):
+            problems.append('%s: accepted, but the occurrence under the cursor is not among the edits %s' % (where, sorted((f, s, en) for f, s, en, _ in eds)))
         if set((f, s, en) for f, s, en, _ in eds) != refs or len(eds) != len(refs):
             problems.append('%s: the edits %s do not cover exactly the references %s' % (where, sorted((f, s, en) for f, s, en, _ in eds), sorted(refs)))
         for f, s, en, t in eds:
@@ -226,3 +228,27 @@ def check_rename(oracle, ws, entries, new_lower='zz', new_upper='Zz', only=None)
             if g1 != g2:
                 problems.append('%s: %r at %d:%d resolved to %s (in new coordinates), after the rename %r resolves to %s' % (where, o['text'], o['file'], o['start'], g1, o2['text'], g2)); break
     return problems, accepted, refused
+
+
+def check_rename_loose(oracle, text, entries, new_lower='zz', new_upper='Zz'):
+    """the same program as a free-standing document that no package owns: a rename that is accepted edits exactly the references
+    (declaration included) - an accepted rename with no or fewer edits silently leaves occurrences behind.  returns (problems, accepted)"""
+    problems = []; accepted = 0
+    for e in entries:
+        if not e['goto']:
+            continue
+        new = new_upper if e['text'][:1].isupper() else new_lower
+        r = oracle.ask('rename', json.dumps({'text': text, 'offset': e['start'], 'new_name': new}))
+        if not isinstance(r, dict) or 'rename' not in r:
+            problems.append('free-standing document: rename at %d (%r): %s' % (e['start'], e['text'], r)); continue
+        if not r['rename'].get('ok'):
+            continue
+        accepted += 1
+        eds = sorted((s_, en) for _, s_, en, _ in r['rename']['edits'])
+        refs = sorted((s_, en) for _, s_, en in (e['refs'] or []))
+        if (e['start'], e['end']) not in eds:
+            problems.append('as a free-standing document without a package: rename of %r at offset %d to %r is accepted but does not edit the occurrence under the cursor (edits: %s)' % (e['text'], e['start'], new, eds))
+        elif eds != refs:
+            problems.append('as a free-standing document without a package: rename of %r at offset %d to %r is accepted with the edits %s, the references are %s' % (e['text'], e['start'], new, eds, refs))
+    return problems, accepted
+
